@@ -279,6 +279,7 @@ fn measure_point(rep: &Report, dir: &'static str, via: &'static str, size: usize
 pub fn run(rep: &'static Report) {
     let seed = rep.seed;
     rep.set_rule("E-GRID + MON: both directions x {hooked loop at production chunk size, key mode, password mode} x input sizes n*cs+d (n in {0,1,2,3,4,8,16,64}, thorough adds 1024 and 16384 = 1 GiB; d in {0,1}) x {full reads / 64 KiB chunks, 1 KiB pieces / 1 KiB chunks}, from non-allocating synthetic sources into counting sinks; peak live heap per call from the counting allocator and the read/write lag at every chunk completion. distinct non-trivial = distinct (direction, via, size, piece) points with >= 2 chunks");
+    rep.rule_add("A damaged later chunk followed by 1/64/512(2048) more chunks: same peak heap, at most 4 records taken after it. FILE and -o naming one file through ./, a hard link, a symlink: peak RSS stays at the baseline.");
     rep.rule_add("Input as a regular FILE with stdout blocked: the input descriptor's offset (/proc/PID/fdinfo) once the program rests in its blocked write, all four commands, 48-chunk files.");
     rep.rule_add("CLI streams through stdin/stdout, FIFO, -o fresh/pre-existing (growth polled), non-blocking stdout with a stalled reader; streams of 16 vs 256/1024 chunks of pairwise different lengths.");
     rep.assume("extrapolation beyond the largest size rests on the loop state being independent of the chunk index; the synthetic decrypt source allocates one record at a time (constant, included in the measured peak)");
@@ -386,6 +387,70 @@ pub fn run(rep: &'static Report) {
         }
         rep.extra("peak_dec_trailing_data", json!(peaks.iter().map(|p| json!([p.0,p.1])).collect::<Vec<_>>()));
     }
+    // a later chunk fails to authenticate while much data is still behind it: rejecting must not take that data in.
+    // Authentic chunks 0..k-1, chunk k with one bit changed, then N more (authentic) chunks; peak heap and the number of
+    // bytes consumed after the bad chunk are the same for N = 1, 64 and 512 (thorough 2048)
+    {
+        let tkey = derive32(1, "c11-tiny");
+        let mut peaks = vec![];
+        for nafter in [1usize, 64, rep.tier.pick(512, 2048)] {
+            for kbad in [1usize, 3] {
+                rep.eval(1);
+                struct Damaged {
+                    key: [u8; 32],
+                    idx: u64,
+                    bad: u64,
+                    total: u64,
+                    cur: Vec<u8>,
+                    cpos: usize,
+                    taken_after_bad: usize,
+                }
+                impl Read for Damaged {
+                    fn read(&mut self, buf: &mut [u8]) -> std::io::Result<usize> {
+                        if self.cpos == self.cur.len() {
+                            if self.idx == self.total {
+                                return Ok(0);
+                            }
+                            let p: Vec<u8> = (0..CS).map(|i| pbyte(self.idx as usize * CS + i)).collect();
+                            self.cur = r::seal_conforming(&self.key, &[], self.idx, self.idx + 1 == self.total, &p).bytes();
+                            if self.idx == self.bad {
+                                self.cur[100] ^= 1;
+                            }
+                            self.cpos = 0;
+                            self.idx += 1;
+                        }
+                        let n = buf.len().min(self.cur.len() - self.cpos);
+                        buf[..n].copy_from_slice(&self.cur[self.cpos..self.cpos + n]);
+                        self.cpos += n;
+                        if self.idx > self.bad + 1 {
+                            self.taken_after_bad += n;
+                        }
+                        Ok(n)
+                    }
+                }
+                let mut src = Damaged { key: tkey, idx: 0, bad: kbad as u64, total: (kbad + 1 + nafter) as u64, cur: vec![], cpos: 0, taken_after_bad: 0 };
+                let mut sink = std::io::sink();
+                let sub = Subject::TinyDec { key: hx(&tkey), aad: String::new(), cs: CS as u32 };
+                let (res, m) = mon::measured(|| run_rw(&sub, &mut src, &mut sink));
+                if res.is_ok() {
+                    rep.violation("damaged/accepted", json!({"kind":"trailing","damaged":kbad,"after":nafter}), format!("a stream whose chunk {} has a changed bit is accepted", kbad));
+                }
+                peaks.push((kbad, nafter, m.peak_above_mark, src.taken_after_bad));
+                rep.nontrivial(format!("damaged-{}-{}", kbad, nafter).as_bytes());
+            }
+        }
+        let lo = peaks.iter().map(|p| p.2).min().unwrap();
+        let hi = peaks.iter().map(|p| p.2).max().unwrap();
+        let taken = peaks.iter().map(|p| p.3).max().unwrap();
+        if hi - lo > 4096 || taken > 4 * (CS + 32) {
+            rep.violation(
+                "mem/grows-with-data-behind-a-bad-chunk",
+                json!({"kind":"trailing","peaks":peaks.iter().map(|p| json!([p.0,p.1,p.2,p.3])).collect::<Vec<_>>()}),
+                format!("rejecting a stream with a damaged later chunk depends on how much data follows it: (bad chunk, chunks after it, peak heap, bytes taken after the bad chunk) = {:?}", peaks),
+            );
+        }
+        rep.extra("peak_dec_damaged_later_chunk", json!(peaks.iter().map(|p| json!([p.0, p.1, p.2, p.3])).collect::<Vec<_>>()));
+    }
     // a hostile length field (just below 2^32, 2^31, chunk size + 1) followed by megabytes of data: rejected without
     // allocating or buffering in proportion to the claimed length or to the data that follows
     {
@@ -490,6 +555,7 @@ pub fn run(rep: &'static Report) {
 
     cli_level(rep);
     cli_file_input_position(rep);
+    cli_same_inode_rss(rep);
     rep.set_exhaustive(true);
 }
 
@@ -769,6 +835,101 @@ fn cli_file_input_position(rep: &Report) {
             Err(e) => rep.violation(&format!("cli-file-position/{}", name), json!({"kind":"cli-stall","cmd":name,"file-position":true}), e),
         }
     });
+}
+
+/// FILE and -o name the same file under different spellings (./x, a hard link, a symbolic link): whatever the program makes
+/// of that, its peak resident memory stays where it is for an ordinary run over a file of the same size (64 MiB).
+/// `kv rss-child <cwd> <kestrel args...>`: runs the program (stdio on /dev/null, KESTREL_PASSWORD passed on) and prints
+/// its peak resident set size in KiB and its exit status.
+pub fn rss_child_main(a: &[String]) -> ! {
+    use std::process::{Command, Stdio};
+    let pw = std::env::var("KESTREL_PASSWORD").unwrap_or_default();
+    let child = Command::new(KESTREL).args(&a[1..]).env_clear().env("KESTREL_PASSWORD", pw).current_dir(&a[0]).stdin(Stdio::null()).stdout(Stdio::null()).stderr(Stdio::null()).spawn();
+    let child = match child {
+        Ok(c) => c,
+        Err(_) => std::process::exit(3),
+    };
+    let pid = child.id() as i32;
+    let mut status: i32 = 0;
+    let mut ru: libc::rusage = unsafe { std::mem::zeroed() };
+    let rc = unsafe { libc::wait4(pid, &mut status, 0, &mut ru) };
+    std::mem::forget(child);
+    if rc != pid {
+        std::process::exit(4);
+    }
+    println!("{} {}", ru.ru_maxrss, if libc::WIFEXITED(status) { libc::WEXITSTATUS(status) } else { -1 });
+    std::process::exit(0);
+}
+
+fn cli_same_inode_rss(rep: &Report) {
+    use std::process::{Command, Stdio};
+    let size: usize = 64 << 20;
+    // (a child's ru_maxrss starts from the resident size of the process that spawned it, so the program is started by a
+    // small helper process -- `kv rss-child` -- and not by this one, which holds the test data)
+    let exe = std::env::current_exe().unwrap_or_else(|_| crate::report::machinery("current_exe"));
+    let run = |args: &[&str], cwd: &std::path::Path| -> Result<(i64, i32), String> {
+        let o = Command::new(&exe).arg("rss-child").arg(cwd).args(args).env("KESTREL_PASSWORD", "clipw").stdin(Stdio::null()).stderr(Stdio::null()).output().map_err(|e| format!("spawn: {}", e))?;
+        let t = String::from_utf8_lossy(&o.stdout).to_string();
+        let mut it = t.split_whitespace();
+        match (it.next().and_then(|x| x.parse::<i64>().ok()), it.next().and_then(|x| x.parse::<i32>().ok())) {
+            (Some(rss), Some(code)) => Ok((rss, code)),
+            _ => Err(format!("the rss helper printed {:?}", t)),
+        }
+    };
+    let prepare = |sc: &Scratch| {
+        let mut data = vec![0u8; size];
+        for (i, b) in data.iter_mut().enumerate() {
+            *b = pbyte(i);
+        }
+        sc.write("big", &data);
+    };
+    let sc0 = Scratch::new();
+    prepare(&sc0);
+    let base = match run(&["password", "encrypt", "big", "-o", "other.ktl", "--env-pass"], &sc0.0) {
+        Ok((rss, 0)) => rss,
+        other => {
+            rep.violation("cli-same-inode/baseline-failed", json!({"kind":"cli-stall","same-inode":true}), format!("ordinary password encrypt of a 64 MiB file failed: {:?}", other));
+            return;
+        }
+    };
+    let variants = ["./ spelling", "hard link", "symbolic link", "absolute path"];
+    use rayon::prelude::*;
+    let res: Vec<(&str, Result<(i64, i32), String>)> = variants
+        .par_iter()
+        .map(|v| {
+            rep.eval(1);
+            rep.nontrivial(format!("cli-same-inode-{}", v).as_bytes());
+            let sc = Scratch::new();
+            prepare(&sc);
+            let abs = sc.0.join("big").to_str().unwrap().to_string();
+            let out: String = match *v {
+                "./ spelling" => "./big".into(),
+                "hard link" => {
+                    let _ = std::fs::hard_link(sc.0.join("big"), sc.0.join("alias"));
+                    "alias".into()
+                }
+                "symbolic link" => {
+                    let _ = std::os::unix::fs::symlink("big", sc.0.join("slink"));
+                    "slink".into()
+                }
+                _ => abs,
+            };
+            (*v, run(&["password", "encrypt", "big", "-o", &out, "--env-pass"], &sc.0))
+        })
+        .collect();
+    let mut seen = vec![];
+    for (v, r0) in res {
+        match r0 {
+            Err(e) => crate::report::machinery(&e),
+            Ok((rss, code)) => {
+                seen.push(json!([v, rss, code]));
+                if rss > base + (16 << 10) {
+                    rep.violation("cli-same-inode/memory", json!({"kind":"cli-stall","same-inode":v}), format!("kestrel password encrypt big -o <the same file through a {}>: peak RSS {} KiB, an ordinary run over a file of this size (64 MiB) peaks at {} KiB (exit status {})", v, rss, base, code));
+                }
+            }
+        }
+    }
+    rep.extra("cli_same_inode_rss_kib", json!({"baseline":base,"variants":seen}));
 }
 
 fn cli_level(rep: &Report) {
